@@ -30,6 +30,9 @@ type Case struct {
 	PrevRect [4]int `json:"prev_rect,omitempty"`
 	// PrevViewBox: the viewBox of that earlier use (zero size = the same viewBox).
 	PrevViewBox [4]ops.F32 `json:"prev_viewbox,omitempty"`
+	// RectAfterReset: the caller gives the viewBox first (Reset) and aims the Renderer at its
+	// rectangle afterwards (SetRasterizer); either order defines the same map.
+	RectAfterReset bool `json:"rect_after_reset,omitempty"`
 }
 
 const eps32 = 1.0 / (1 << 23)
@@ -58,8 +61,13 @@ func checkGeometry(c Case) error {
 		z.ClosePathEndPath()
 	}
 	mark := len(rr.Calls)
-	z.SetRasterizer(rr, rect)
-	z.Reset(gen.VB(vb), ivg.DefaultPalette)
+	if c.RectAfterReset {
+		z.Reset(gen.VB(vb), ivg.DefaultPalette)
+		z.SetRasterizer(rr, rect)
+	} else {
+		z.SetRasterizer(rr, rect)
+		z.Reset(gen.VB(vb), ivg.DefaultPalette)
+	}
 	ops.ApplyAll(&z, c.Ops)
 	rr.Calls = rr.Calls[mark:]
 
@@ -172,6 +180,7 @@ func genCase(t *rapid.T) Case {
 	if rapid.IntRange(0, 4).Draw(t, "origin") == 0 {
 		c.Rect[0], c.Rect[1] = 0, 0
 	}
+	c.RectAfterReset = rapid.IntRange(0, 3).Draw(t, "rectafter") == 0
 	switch rapid.IntRange(0, 3).Draw(t, "prev") {
 	case 0: // re-pointed to a rectangle of the same size elsewhere
 		c.PrevRect = [4]int{c.Rect[0] + rapid.IntRange(-40, 40).Draw(t, "pdx"), c.Rect[1] + rapid.IntRange(-40, 40).Draw(t, "pdy"), c.Rect[2], c.Rect[3]}
@@ -289,6 +298,9 @@ func classify(c Case) (bool, []string) {
 	}
 	if c.Rect[0] != 0 || c.Rect[1] != 0 {
 		labels = append(labels, "rect-off-origin")
+	}
+	if c.RectAfterReset {
+		labels = append(labels, "rectangle-given-after-the-viewbox")
 	}
 	if c.PrevRect[2] > 0 {
 		labels = append(labels, "renderer-re-pointed")
